@@ -115,3 +115,26 @@ Proof.
   apply (failure_closes mstate mstart mnext p a s _ _ R S).
   destruct o as [pl| | | |]; cbn; try exact I. exfalso. apply (NO pl). reflexivity.
 Qed.
+
+(* ------------------------------------------------------------------ *)
+(* refusal is the error code alone *)
+Lemma refusal_ignores_message : forall code m1 m2 payload,
+  refused (mkResp code m1 payload) = refused (mkResp code m2 payload) /\
+  reaction_of_response (mkResp code m1 payload) = reaction_of_response (mkResp code m2 payload) /\
+  (forall step, fault_of_response step (mkResp code m1 payload) = fault_of_response step (mkResp code m2 payload)).
+Proof. intros. repeat split. Qed.
+
+Lemma refused_response_fails :
+  forall mstate mstart mnext p a (s s' : state mstate) r,
+    reachable mstate mstart mnext p a s ->
+    refused r = true ->
+    step mstate mstart mnext p a s (LBroker (reaction_of_response r)) = Some s' ->
+    ph s' = PFailed /\ tr s' = EClose :: ERecv (RErr (error_code r)) :: tr s
+    /\ ~ In EHandOut (tr s') /\ ~ In EVerdict (tr s')
+    /\ (forall l, step mstate mstart mnext p a s' l = None).
+Proof.
+  intros mstate mstart mnext p a s s' r R F S.
+  unfold reaction_of_response in S. rewrite F in S.
+  apply (failure_closes mstate mstart mnext p a s s' _ R S).
+  cbn. unfold refused in F. apply negb_true_iff in F. apply Z.eqb_neq in F. exact F.
+Qed.
